@@ -1,6 +1,7 @@
 import Bw.Json
 import Bw.Merge
 import Bw.Flags
+import Bw.TreeWalk
 import Bw.Glob
 import Bw.Walk
 import Bw.Lemmas.WalkSim
@@ -82,6 +83,29 @@ def changesJson (cs : List (Text × List LC)) : Json :=
       | none => Json.null
       | some rs => Json.arr (rs.map (fun r => Json.arr #[r.1, r.2])).toArray)])).toArray)))
 
+/-- `[start, end, kind, [children…]]`: the syntax tree restricted to the nodes of the kinds the grammar's closure looks at
+    and their ancestors -/
+partial def treeOf (j : Json) : Option (TreeWalk.Tree Node) :=
+  match j with
+  | .arr a => match a.toList with
+    | [s, e, .str k, .arr cs] => do
+      let n : Node := ⟨← nat? s, ← nat? e, k⟩
+      pure (.node n (cs.toList.filterMap treeOf))
+    | _ => none
+  | _ => none
+
+/-- the nodes handed to the comment closures: the cursor walk of `CommentsIterator` over the shipped tree (`Bw.TreeWalk.walk`,
+    proved to be the document order), followed by the nodes of the second Markdown family (HTML comments of `html_block`s,
+    found by a nested parse); files without a tree fall back to the flat list -/
+def nodesOfFile (f : Json) : List Node :=
+  let flat := (arr f "nodes").filterMap nodeOf
+  match f.getObjVal? "tree" with
+  | .ok tj' =>
+    match treeOf tj' with
+    | some t => TreeWalk.walk t ++ flat.filter (fun n => n.kind == "md_html_comment")
+    | none => flat
+  | .error _ => flat
+
 def handlePipeline (j : Json) : Json :=
   let files := arr j "files"
   let fileOf (p : Text) : Option Json := files.find? (fun f => strD f "path" = p)
@@ -94,7 +118,7 @@ def handlePipeline (j : Json) : Json :=
     ignore := fun p => ignoreL.contains p
     read := fun p => (fileOf p) >>= (fun f => str? f "text")
     nodes := fun p => match fileOf p with
-      | some f => (arr f "nodes").filterMap nodeOf
+      | some f => nodesOfFile f
       | none => [] }
   let extra : List (Text × Text) := match j.getObjVal? "extra" with
     | .ok (.obj kvs) => kvs.toList.filterMap (fun (k, v) => match v with | .str s => some (k.toList, s.toList) | _ => none)
